@@ -3,8 +3,8 @@ import Ufo2ftModel.Props.C06Entries
 namespace Ufo2ft.C06
 open List
 
-def kmOf (i : Input) (al : AList) : List (String × String) := (makeClasses (meOf i al)).keyMap
-def clsOf (i : Input) (al : AList) : Classes := (makeClasses (meOf i al)).classes
+def kmOf (i : Input) (al : AList) : List (String × String) := (makeClassesFrom (preClasses i.pre) (meOf i al)).keyMap
+def clsOf (i : Input) (al : AList) : Classes := (makeClassesFrom (preClasses i.pre) (meOf i al)).classes
 def mgOf (i : Input) (al : AList) : List String := (meOf i al).map (·.1)
 def baOf (i : Input) (al : AList) := baseAtts i (prune al) (mgOf i al) (kmOf i al)
 def laOf (i : Input) (al : AList) := ligAtts i (prune al) (mgOf i al) (kmOf i al)
@@ -109,11 +109,11 @@ theorem build_lookups_ok (i : Input) (al : AList) :
 /-! ### the classes of `build` on a well-formed anchor list -/
 theorem clsOf_eq {i : Input} {al : AList} (w : ALwf i al) :
     clsOf i al = (groupNames (meOf i al)).map (fun n => ("MC" ++ n, (groupOf (meOf i al) n).map recOf)) := by
-  unfold clsOf; rw [makeClasses_meOf w]
+  unfold clsOf; rw [w.pre]; exact congrArg ClsState.classes (makeClasses_meOf w)
 
 theorem kmOf_eq {i : Input} {al : AList} (w : ALwf i al) :
     kmOf i al = (groupNames (meOf i al)).map (fun n => (keyOfMarkName n, "MC" ++ n)) := by
-  unfold kmOf; rw [makeClasses_meOf w]
+  unfold kmOf; rw [w.pre]; exact congrArg ClsState.keyMap (makeClasses_meOf w)
 
 /-- a member of a mark class is a mark anchor of that glyph whose name gives the class name -/
 theorem clsOf_mem {i : Input} {al : AList} (w : ALwf i al) {cls : String × List MarkRec} (hc : cls ∈ clsOf i al)
